@@ -225,9 +225,9 @@ func Build(form string, p *refcodec.Packet, from netip.Addr, c BuildCtx) ([]byte
 		}
 		t := refcodec.TCP(from, to, p.DstPort, p.SrcPort, c.ServerSeq, ack, flags, 0, opts, nil)
 		return refcodec.Wrap(from, to, refcodec.ProtoTCP, 60, 0, t), nil
-	case strings.HasPrefix(form, "sack") || form == "plainack":
+	case strings.HasPrefix(form, "sack") || form == "plainack" || form == "plainackTS":
 		var opts []byte
-		if form == "sackTS" {
+		if form == "sackTS" || form == "plainackTS" {
 			opts = append(opts, refcodec.OptNop()...)
 			opts = append(opts, refcodec.OptNop()...)
 			opts = append(opts, refcodec.OptTimestamps(c.TSVal, 0)...)
@@ -244,7 +244,7 @@ func Build(form string, p *refcodec.Packet, from netip.Addr, c BuildCtx) ([]byte
 			for len(opts)%4 != 0 {
 				opts = append(opts, 1)
 			}
-		} else if form != "plainack" {
+		} else if form != "plainack" && form != "plainackTS" {
 			blocks := sackBlocks(c.SackInitSeq, c.SackHeld)
 			max := 3
 			switch form {
